@@ -116,8 +116,39 @@ def scenario(tier):
     return fn
 
 
+def unsealed(b, sym):
+    """read-only commands on a tree whose root has no history (yet): they fail or succeed, but write nothing"""
+    b.mkfile("R/a.txt", 1)
+    b.mkfile("R/d/b.txt", 2)
+    b.mkdir("R/z")
+    if sym.flag("child_history_at_d"):
+        r = b.run("create", root="R/d", h=["md5"])
+        b.require(r.exit == 0, "setup-create", str(r))
+    if sym.flag("empty_ascmhl_folder"):
+        pass
+    cmd = sym.choose("command", ["verify", "verify-sf", "verify-dh", "verify-dh-co", "verify-dh-ro", "verify-dh-h", "diff", "info", "info-sf", "hash"])
+    before = b.snapshot("")
+    r = {"verify": lambda: b.run("verify", root="R"),
+         "verify-sf": lambda: b.run("verify", root="R", sf="R/a.txt"),
+         "verify-dh": lambda: b.run("verify", root="R", dh=True),
+         "verify-dh-co": lambda: b.run("verify", root="R", dh=True, co=True),
+         "verify-dh-ro": lambda: b.run("verify", root="R", dh=True, ro=True),
+         "verify-dh-h": lambda: b.run("verify", root="R", dh=True, h="md5"),
+         "diff": lambda: b.run("diff", root="R"),
+         "info": lambda: b.run("info", root="R"),
+         "info-sf": lambda: b.run("info", root="R", sf=["R/a.txt"]),
+         "hash": lambda: b.run("hash", file="R/a.txt", h="md5")}[cmd]()
+    tag = "%s on an unsealed root: exit %s exc %s" % (cmd, r.exit, r.exc)
+    b.require(r.exc is None or r.exit >= 10, "no-internal-error", tag)
+    b.require(r.ops == [], "read-only-command-wrote", "%s: %s" % (tag, r.ops[:4]))
+    same_tree(b, before, b.snapshot(""), tag)
+
+
 def harnesses(tier):
-    return [Harness("c14-side-effects", scenario(tier), frontier=6, budget_s=2400,
+    return [Harness("c14-unsealed", unsealed, frontier=3, budget_s=600,
+                    what="10 read-only command forms on a tree whose root has no ascmhl folder (optionally with a sealed sub-folder)",
+                    bounds={"tree": "R/{a.txt,d/{b.txt},z/}"}, outside=[]),
+            Harness("c14-side-effects", scenario(tier), frontier=6, budget_s=2400,
                     what="flat / nested histories in 5 pre-states (unchanged, altered, deleted, added, tampered manifest) x 19 command forms: "
                          "operation log and before/after snapshot (type, content id, size, mtime) of the whole tree",
                     bounds={"layouts": "flat | child at A/AA | children at A and B", "commands": READONLY + ["flatten", "create", "create -n", "create -sf", "create -dr", "create on a new root"]},
